@@ -110,7 +110,7 @@ func runC08(c *Collector, r *Rng, thorough bool) {
 		op, obs, out, err, p = execEncUnprot(uh)
 		c08Check(c, "enc/unprotected", op, obs, out, err, p, "DUnprot", func() ([]byte, error) { return uh.MarshalCBOR() }, reps, inDataModel(map[any]any(uh), 0))
 		// ---- messages ----
-		m := &cose.Sign1Message{Headers: genGoHeaders(r, cfg, alg, true, r.Chance(1, 6)), Payload: genGoPayload(r), Signature: pick(r, [][]byte{genSigBytes(r), genSigBytes(r), nil, {}})}
+		m := &cose.Sign1Message{Headers: genGoHeaders(r, cfg, alg, true, r.Chance(1, 3)), Payload: genGoPayload(r), Signature: pick(r, [][]byte{genSigBytes(r), genSigBytes(r), nil, {}})}
 		tagged := r.Bool()
 		kind := "DSign1U"
 		if tagged {
@@ -123,11 +123,11 @@ func runC08(c *Collector, r *Rng, thorough bool) {
 			}
 			return (*cose.UntaggedSign1Message)(m).MarshalCBOR()
 		}, reps, headersInModel(&m.Headers))
-		s := &cose.Signature{Headers: genGoHeaders(r, cfg, alg, true, r.Chance(1, 6)), Signature: pick(r, [][]byte{genSigBytes(r), genSigBytes(r), nil})}
+		s := &cose.Signature{Headers: genGoHeaders(r, cfg, alg, true, r.Chance(1, 3)), Signature: pick(r, [][]byte{genSigBytes(r), genSigBytes(r), nil})}
 		op, obs, out, err, p = execEncSignature(s)
 		c08Check(c, "enc/signature", op, obs, out, err, p, "DSignature", func() ([]byte, error) { return s.MarshalCBOR() }, reps, headersInModel(&s.Headers))
 		if i%3 == 0 {
-			sm := &cose.SignMessage{Headers: genGoHeaders(r, cfg, 0, false, r.Chance(1, 6)), Payload: genGoPayload(r)}
+			sm := &cose.SignMessage{Headers: genGoHeaders(r, cfg, 0, false, r.Chance(1, 3)), Payload: genGoPayload(r)}
 			ok := headersInModel(&sm.Headers)
 			for j := r.Intn(4); j > 0; j-- {
 				sj := &cose.Signature{Headers: genGoHeaders(r, BucketCfg{Spell: true, Max: 3}, alg, true, false), Signature: genSigBytes(r)}
@@ -183,6 +183,101 @@ func runC08(c *Collector, r *Rng, thorough bool) {
 				}
 			}
 		}
+		// ---- a caller that supplies the protected bucket as bytes another encoder produced (longer length prefix,
+		// unsorted map): the bucket on the wire holds exactly the bytes that were signed, however often the message
+		// is signed, verified and encoded ----
+		if i%2 == 1 {
+			pm := wMap(-1, wInt(1, -1), wInt(int64(alg), -1), wInt(4, -1), wBstr(r.Bytes(1+r.Intn(30)), -1))
+			if r.Bool() {
+				pm.RandWidths(r, 1, 2, nil)
+				pm.ShuffleMaps(r)
+			}
+			pb := wBstr(pm.Ser(), -1)
+			ws := widthsFor(uint64(len(pb.Str)))
+			pb.Width = ws[r.Intn(len(ws))]
+			raw := pb.Ser()
+			keep := append([]byte{}, raw...)
+			sg := &spySigner{alg: alg, kind: SOk, sig: genSigBytes(r)}
+			vf := &spyVerifier{alg: alg}
+			ext := genGoExternal(r)
+			rep := map[string]any{"raw_protected": hx(keep), "alg": alg.String()}
+			var outs [][]byte
+			var tbs [][]byte
+			okAll := true
+			tbsIdx := 1
+			switch r.Intn(3) {
+			case 0:
+				m := &cose.Sign1Message{Headers: cose.Headers{RawProtected: raw}, Payload: genGoPayloadNonNil(r)}
+				if err := m.Sign(r, ext, sg); err != nil {
+					okAll = false
+					break
+				}
+				o1, e1 := m.MarshalCBOR()
+				m.Verify(ext, vf)
+				o2, e2 := m.MarshalCBOR()
+				okAll = e1 == nil && e2 == nil
+				outs = [][]byte{o1, o2}
+				tbs = append(sg.calls, vcontents(vf)...)
+				rep["structure"] = "COSE_Sign1"
+			case 1:
+				s := &cose.Signature{Headers: cose.Headers{RawProtected: raw}}
+				body := []byte{0x40}
+				if err := s.Sign(r, sg, body, []byte("p"), ext); err != nil {
+					okAll = false
+					break
+				}
+				o1, e1 := s.MarshalCBOR()
+				s.Verify(vf, body, []byte("p"), ext)
+				o2, e2 := s.MarshalCBOR()
+				okAll = e1 == nil && e2 == nil
+				outs = [][]byte{o1, o2}
+				tbs = append(sg.calls, vcontents(vf)...)
+				rep["structure"] = "COSE_Signature"
+				tbsIdx = 2
+			default:
+				sm := &cose.SignMessage{Headers: cose.Headers{RawProtected: raw}, Payload: genGoPayloadNonNil(r),
+					Signatures: []*cose.Signature{{Headers: cose.Headers{Protected: cose.ProtectedHeader{cose.HeaderLabelAlgorithm: alg}}}}}
+				if err := sm.Sign(r, ext, sg); err != nil {
+					okAll = false
+					break
+				}
+				o1, e1 := sm.MarshalCBOR()
+				sm.Verify(ext, vf)
+				o2, e2 := sm.MarshalCBOR()
+				okAll = e1 == nil && e2 == nil
+				outs = [][]byte{o1, o2}
+				tbs = append(sg.calls, vcontents(vf)...)
+				rep["structure"] = "COSE_Sign"
+			}
+			c.Eval("caller-raw-protected/"+fmt.Sprint(rep["structure"]), hx(keep)+hx(ext), okAll)
+			if !bytes.Equal(raw, keep) {
+				c.Fail("C08/caller-bytes-changed", fmt.Sprintf("the caller's protected bytes %x were rewritten to %x by Sign / Verify / MarshalCBOR", keep, raw), rep)
+			} else if okAll {
+				if len(outs) == 2 && !bytes.Equal(outs[0], outs[1]) {
+					c.Fail("C08/nondeterministic", fmt.Sprintf("the same message encodes to %x before and to %x after Verify", outs[0], outs[1]), rep)
+				}
+				for _, o := range outs {
+					w, perr := refParseFull(o)
+					if perr != nil {
+						c.Fail("C08/malformed", "encoder output is not one well-formed CBOR item: "+hx(o), rep)
+						break
+					}
+					if w.Maj == 6 {
+						w = w.Kids[0]
+					}
+					if len(w.Kids) == 0 || w.Kids[0].Maj != 2 {
+						c.Fail("C08/malformed", "first element of the encoded structure is not a byte string: "+hx(o), rep)
+						break
+					}
+					for _, t := range tbs {
+						if signed, err := refParseFull(tbsElement(t, tbsIdx)); err != nil || !bytes.Equal(signed.Str, w.Kids[0].Str) {
+							c.Fail("C08/signed-vs-emitted", fmt.Sprintf("protected bucket on the wire %x differs from the one inside the signed bytes %x", w.Kids[0].Str, tbsElement(t, tbsIdx)), rep)
+							break
+						}
+					}
+				}
+			}
+		}
 		// ---- SignHashEnvelope: whatever the caller's Headers carry (typed maps, stale raw bytes of a message it
 		// decoded earlier), the returned envelope is accepted by VerifyHashEnvelope and says what was asked for ----
 		if i%3 == 0 {
@@ -190,8 +285,17 @@ func runC08(c *Collector, r *Rng, thorough bool) {
 			if r.Bool() {
 				h.Protected[int64(4)] = genBytes(r)
 			}
-			mode := r.Intn(4)
+			mode := r.Intn(5)
+			forceLoc := false
 			switch mode {
+			case 4: // headers of an envelope the caller decoded earlier, re-issued for a new artifact: typed map and
+				// retained bytes agree with each other and already hold every hash-envelope label
+				h.Protected[cose.HeaderLabelPayloadHashAlgorithm] = cose.AlgorithmSHA384
+				h.Protected[cose.HeaderLabelPayloadLocation] = "old"
+				if b, err := h.MarshalProtected(); err == nil {
+					h.RawProtected = b
+				}
+				forceLoc = true
 			case 1: // raw bytes of the same typed map
 				if b, err := h.MarshalProtected(); err == nil {
 					h.RawProtected = b
@@ -204,6 +308,9 @@ func runC08(c *Collector, r *Rng, thorough bool) {
 			}
 			hv := r.Bytes(32)
 			hp := cose.HashEnvelopePayload{HashAlgorithm: cose.AlgorithmSHA256, HashValue: hv, Location: pick(r, []string{"", "new-location"})}
+			if forceLoc {
+				hp.Location = "new-location"
+			}
 			sg := &spySigner{alg: alg, kind: SOk, sig: genSigBytes(r)}
 			op, obs, out, err, p := execSignHE(sg, h, hp)
 			if p {
@@ -550,6 +657,8 @@ func runC09(c *Collector, r *Rng, thorough bool) {
 		c.Eval("cycles/"+kind, hx(data), true)
 		// cleared raw bytes: canonical form is a fixed point
 		c09Cleared(c, kind, data, rep)
+		// one bucket's retained bytes cleared: the other bucket of every layer is still reproduced
+		c09Partial(c, kind, data, d.reenc, rep)
 	}
 	// real signatures made over non-canonical bytes survive re-encoding
 	m := 20
@@ -589,6 +698,29 @@ func runC09(c *Collector, r *Rng, thorough bool) {
 		}
 		if err := m2.Verify(ext, k.verifier()); err != nil {
 			c.Fail("C09/verify-after", "signature no longer verifies after decode/encode: "+err.Error(), rep)
+		}
+		// the receiver adds an unprotected parameter: it clears the retained unprotected bytes only, and the
+		// protected bucket, which it did not touch, still carries the signature
+		d3 := decodeKind("DSign1", data)
+		if d3.err == nil && d3.s1 != nil {
+			d3.s1.Headers.RawUnprotected = nil
+			if d3.s1.Headers.Unprotected == nil {
+				d3.s1.Headers.Unprotected = cose.UnprotectedHeader{}
+			}
+			d3.s1.Headers.Unprotected["receiver-note"] = "seen"
+			out3, err := d3.s1.MarshalCBOR()
+			if err != nil {
+				continue
+			}
+			c.Eval("real-signature-survives-unprotected-edit/"+k.alg.String(), hx(data), true)
+			var m3 cose.Sign1Message
+			if err := m3.UnmarshalCBOR(out3); err != nil {
+				c.Fail("C09/reencoded-rejected", "message re-encoded after an unprotected edit is refused: "+err.Error(), rep)
+			} else if err := m3.Verify(ext, k.verifier()); err != nil {
+				c.Fail("C09/verify-after", "signature no longer verifies after an edit of the unprotected bucket only: "+err.Error(), rep)
+			} else if v, ok := m3.Headers.Unprotected["receiver-note"]; !ok || v != "seen" {
+				c.Fail("C09/edit-lost", "the unprotected parameter added after clearing RawUnprotected is not in the re-encoded message", rep)
+			}
 		}
 	}
 }
@@ -682,4 +814,112 @@ func toI64(k any) (int64, bool) {
 		return int64(v), true
 	}
 	return 0, false
+}
+
+func vcontents(v *spyVerifier) [][]byte {
+	var out [][]byte
+	for _, c := range v.calls {
+		out = append(out, c.content)
+	}
+	return out
+}
+
+// layers lists the header sets of a decoded value in a fixed order: the body, its countersignatures
+// (recursively), then each signer with its countersignatures.
+func layersOf(d *decoded) []*cose.Headers {
+	var out []*cose.Headers
+	var walk func(h *cose.Headers)
+	walk = func(h *cose.Headers) {
+		out = append(out, h)
+		switch t := h.Unprotected[int64(11)].(type) {
+		case *cose.Countersignature:
+			if t != nil {
+				walk(&t.Headers)
+			}
+		case []*cose.Countersignature:
+			for _, e := range t {
+				if e != nil {
+					walk(&e.Headers)
+				}
+			}
+		}
+	}
+	switch {
+	case d.s1 != nil:
+		walk(&d.s1.Headers)
+	case d.sig != nil:
+		walk(&d.sig.Headers)
+	case d.sm != nil:
+		walk(&d.sm.Headers)
+		for _, s := range d.sm.Signatures {
+			if s != nil {
+				walk(&s.Headers)
+			}
+		}
+	}
+	return out
+}
+
+func encodeDecoded(kind string, d *decoded) ([]byte, error) {
+	switch {
+	case d.s1 != nil:
+		if kind == "DSign1" {
+			return d.s1.MarshalCBOR()
+		}
+		return (*cose.UntaggedSign1Message)(d.s1).MarshalCBOR()
+	case d.sig != nil:
+		return d.sig.MarshalCBOR()
+	case d.sm != nil:
+		return d.sm.MarshalCBOR()
+	}
+	return nil, errRef
+}
+
+// c09Partial clears the retained bytes of one bucket only, in every layer, re-encodes and decodes again: the
+// bucket whose retained bytes were kept is the same as in the untouched re-encoding, layer by layer.
+func c09Partial(c *Collector, kind string, data, untouched []byte, rep map[string]any) {
+	ref := decodeKind(kind, untouched)
+	if ref.err != nil {
+		return
+	}
+	refLayers := layersOf(&ref)
+	for _, which := range []string{"unprotected-cleared", "protected-cleared"} {
+		d := decodeKind(kind, data)
+		if d.err != nil {
+			return
+		}
+		for _, h := range layersOf(&d) {
+			if which == "unprotected-cleared" {
+				h.RawUnprotected = nil
+			} else {
+				h.RawProtected = nil
+			}
+		}
+		out, err := encodeDecoded(kind, &d)
+		if err != nil {
+			c.Eval("partial/"+which+"/unencodable", hx(data), false)
+			continue
+		}
+		c.Eval("partial/"+which+"/"+kind, hx(data), true)
+		d2 := decodeKind(kind, out)
+		if d2.err != nil {
+			c.Fail("C09/partial-not-decodable", which+": the re-encoding is refused by the decoder: "+d2.err.Error(), rep)
+			continue
+		}
+		got := layersOf(&d2)
+		if len(got) != len(refLayers) {
+			c.Fail("C09/partial-differs", fmt.Sprintf("%s: %d header layers after re-encoding, %d before", which, len(got), len(refLayers)), rep)
+			continue
+		}
+		for i := range got {
+			a, b := got[i].RawProtected, refLayers[i].RawProtected
+			if which == "protected-cleared" {
+				a, b = got[i].RawUnprotected, refLayers[i].RawUnprotected
+			}
+			if !bytes.Equal(a, b) {
+				c.Fail("C09/partial-differs", fmt.Sprintf("%s: layer %d: the bucket whose retained bytes were kept came out as %x, received %x", which, i, a, b), rep)
+				break
+			}
+		}
+	}
 }
